@@ -117,15 +117,16 @@ func suiteLongLines(env *Env, res *Result) {
 	}
 	// ---- CLI level: format, generate (direct, include, include-except, suffix replacement) ----
 	type cliCase struct {
-		site  string
-		tree  Tree
-		args  []string
-		must  []string // tokens that must be accounted for when the command succeeds
-		file  string
-		L     int
-		idx   int
-		final bool
-		text  string
+		site    string
+		tree    Tree
+		args    []string
+		must    []string // tokens that must be accounted for when the command succeeds
+		mustNot []string // tokens that must NOT be in the result (entries an exclude file lists)
+		file    string
+		L       int
+		idx     int
+		final   bool
+		text    string
 	}
 	var cc []cliCase
 	for i := 0; i < n; i++ {
@@ -146,7 +147,18 @@ func suiteLongLines(env *Env, res *Result) {
 			long50 = long50[:50]
 		}
 		short = append(append([]string{}, short...), long50) // the long line itself must be accounted for as well
-		switch i % 5 {
+		switch i % 6 {
+		case 5:
+			// the long line stands in an EXCLUDE file: every entry the file lists, before and after the long
+			// line, must still be excluded
+			var listed []string
+			for _, l := range lines {
+				if len(l) < 100 {
+					listed = append(listed, l)
+				}
+			}
+			cc = append(cc, cliCase{site: "exclude_file", tree: Tree{"regex-assembly/942100.ra": "zulu\n##!> include-except words big\n", "regex-assembly/include/words.ra": "alpha\nbravo\ncharlie\ndelta\nyankee\n", "regex-assembly/exclude/big.ra": text},
+				args: []string{"regex", "generate", "942100"}, must: []string{"zulu", "yankee"}, mustNot: listed, L: L, idx: idx, final: final})
 		case 0:
 			cc = append(cc, cliCase{site: "format", tree: Tree{"regex-assembly/942100.ra": text}, args: []string{"regex", "format", "942100"}, must: short, file: "regex-assembly/942100.ra", L: L, idx: idx, final: final, text: text})
 		case 1:
@@ -206,6 +218,12 @@ func suiteLongLines(env *Env, res *Result) {
 		hay := o.r.Stdout
 		if c.site == "format" {
 			hay = o.after
+		}
+		for _, tok := range c.mustNot {
+			if strings.Contains(hay, tok) {
+				fail(c.site, c.L, fmt.Sprintf("exit 0 but the excluded entry %q is in the result %q", tok, clip(hay, 200)), in)
+				break
+			}
 		}
 		for _, tok := range c.must {
 			if !strings.Contains(hay, tok) && !accountedFor(hay, tok) {
